@@ -355,8 +355,72 @@ def input_check(case, ctx):
     return res
 
 
+# ---- systematic operator x type x boundary-value table ---------------------------------------------------------
+
+FT_TYPES = [cm.INT, cm.UINT, cm.LONG, cm.ULONG]
+FT_BIN = ["+", "-", "*", "/", "%", "<<", ">>", "&", "|", "^", "<", ">", "<=", ">=", "==", "!=", "&&", "||"]
+FT_UN = ["-", "~", "!"]
+FT_CAST = [cm.BOOL, cm.SCHAR, cm.UCHAR, cm.SHORT, cm.USHORT, cm.INT, cm.UINT, cm.LONG, cm.ULONG]
+FT_UNIT = 48
+
+
+def _ft_vals(t):
+    vs = [v for v in (t.min, t.min + 1, -100, -8, -2, -1, 0, 1, 2, 3, 7, 31, 32, 33, 63, 64, 100, 65535, 65536, t.max // 2, t.max - 1, t.max,
+                      (1 << 31) - 1, 1 << 31, (1 << 32) - 1, 1 << 32) if t.has(v)]
+    return sorted(set(vs))
+
+
+def _ft_item(text, v, t):
+    pt = cm.promote(t) if t.kind == "int" else t
+    v = cm.convert(v, t, pt) if t.kind == "int" else v
+    return {"e": text, "v": v, "t": pt.name, "kind": pt.kind, "bits": pt.bits, "signed": getattr(pt, "signed", True)}
+
+
+def fold_items():
+    """Every defined (operator, operand types, boundary operands) combination over int/unsigned/long/unsigned long."""
+    for op in FT_BIN:
+        for ta in FT_TYPES:
+            for tb in FT_TYPES:
+                for a in _ft_vals(ta):
+                    for b in _ft_vals(tb):
+                        if op in ("<<", ">>") and not (0 <= b <= 64):
+                            continue
+                        try:
+                            v, t = cm.binop(op, a, ta, b, tb)
+                        except cm.UB:
+                            continue
+                        yield _ft_item("%s %s %s" % (cm.literal(a, ta), op, cm.literal(b, tb)), v, t)
+    for op in FT_UN:
+        for ta in FT_TYPES:
+            for a in _ft_vals(ta):
+                try:
+                    v, t = cm.unop(op, a, ta)
+                except cm.UB:
+                    continue
+                yield _ft_item("%s%s" % (op, cm.literal(a, ta)), v, t)
+    for ta in FT_TYPES:
+        for tc in FT_CAST:
+            for a in _ft_vals(ta):
+                try:
+                    v = cm.convert(a, ta, tc)
+                except cm.UB:
+                    continue
+                yield _ft_item("(%s)%s" % (tc.name, cm.literal(a, ta)), v, tc)
+
+
+def fold_units(ctx):
+    """Units of about FT_UNIT table rows, strided so that every unit mixes operators and types;
+    quick: a seed-selected fifth of the units, thorough: all."""
+    items = list(fold_items())
+    nu = (len(items) + FT_UNIT - 1) // FT_UNIT
+    for u in range(nu):
+        if ctx.tier == "thorough" or (u + ctx.seed) % 5 == 0:
+            yield {"items": items[u::nu], "t": u % 3, "labels": ["fold-table"], "boundary": True}
+
+
 def sources(ctx):
     return [
         Source("input", input_check, enum=lambda ctx: iter(())),
+        Source("fold-table", const_check, enum=fold_units, exhaustive=False),
         Source("const", const_check, strategy=lambda c: const_cases(), examples={"quick": 2500, "thorough": 100000}),
     ]
